@@ -440,3 +440,26 @@ func (c *CMem) write(typ string, i int, v float64) {
 		binary.LittleEndian.PutUint64(b[8*i:], uint64(v))
 	}
 }
+
+// Wrap puts a data.ND<T> value (e.g. one returned by an H5Ref Load) behind the erased handle.
+func Wrap(typ string, raw interface{}) View {
+	switch typ {
+	case "float64":
+		return &wrap[float64, data.NDFloat64]{a: raw.(data.NDFloat64), typ: typ, op: opF64}
+	case "float32":
+		return &wrap[float32, data.NDFloat32]{a: raw.(data.NDFloat32), typ: typ, op: opF32}
+	case "int32":
+		return &wrap[int32, data.NDInt32]{a: raw.(data.NDInt32), typ: typ, op: opI32}
+	case "uint32":
+		return &wrap[uint32, data.NDUint32]{a: raw.(data.NDUint32), typ: typ, op: opU32}
+	case "int64":
+		return &wrap[int64, data.NDInt64]{a: raw.(data.NDInt64), typ: typ, op: opI64}
+	case "uint64":
+		return &wrap[uint64, data.NDUint64]{a: raw.(data.NDUint64), typ: typ, op: opU64}
+	case "int":
+		return &wrap[int, data.NDInt]{a: raw.(data.NDInt), typ: typ}
+	case "uint":
+		return &wrap[uint, data.NDUint]{a: raw.(data.NDUint), typ: typ}
+	}
+	panic("bad type " + typ)
+}
